@@ -120,6 +120,34 @@ def child(out_npz):
         x = np.random.default_rng(5).normal(size=w.input_shape) + (0 if r2c else 1j * np.random.default_rng(6).normal(size=w.input_shape))
         y = w.call(x)
         res["fft_%s_%d_%d%d%d" % ("x".join(map(str, dims)), nt, r2c, inplace, bf)] = np.concatenate([y.real.ravel(), y.imag.ravel()])
+    # ---- 7. orbital-level C kernels that run inside pyscf's own parallel loop over shells (GTOeval_loop): fractional Laplacian of
+    # the orbitals with and without gradients, the density ingredients built from them, and the convolved orbitals of the
+    # reference-grade SDMX module for both integral types
+    from ciderpress.dft.plans import FracLaplPlan
+    from ciderpress.dft.settings import FracLaplSettings, SDMXSettings
+    from ciderpress.pyscf.frac_lapl import FLNumInt, eval_flapl_gto
+    from ciderpress.pyscf.sdmx_slow import eval_conv_gto
+    mold = M.make_mol("H2O", basis="def2-svp")
+    crd = np.random.default_rng(7).normal(scale=1.5, size=(6000, 3))
+    for deriv in (0, 1):
+        res["flapl_gto_deriv%d" % deriv] = np.ravel(np.array(eval_flapl_gto([0.5, -0.5], mold, crd, deriv=deriv), copy=True))
+    gl = dft.Grids(mold)
+    gl.level = 0
+    gl.build()
+    dmd = 2 * M.core_dm(mold)
+    for nm, fls in (("nd1=2", FracLaplSettings([-1.0, -0.5, 0.25, 0.5], 4, 2, [(-1, 0), (0, 1)], nd1=2, ld_dots=[(-1, 0), (0, 1)], ndd=2)),
+                    ("nd1=0", FracLaplSettings([-1.0, -0.5, 0.25, 0.5], 4, 2, [(-1, 0), (0, 1)]))):
+        nif = FLNumInt(FracLaplPlan(fls, 1))
+        mk = nif._gen_rho_evaluator(mold, dmd, hermi=1, with_lapl=False)[0]
+        outs = [mk(0, (ao_, kao_), None, "MGGA") for (ao_, kao_), _m, _w, _c in nif.block_loop(mold, gl, deriv=1)]
+        res["flapl_rho_%s" % nm] = np.ravel(np.concatenate(outs, axis=-1))
+    al = np.array([0.05, 0.3, 2.0, 12.0])
+    for itype in ("gauss_r2", "gauss_diff"):
+        sds = SDMXSettings([1])
+        sds._integral_type = itype
+        for deriv in (0, 1):
+            res["sdmx_slow_conv_%s_deriv%d" % (itype, deriv)] = np.ravel(np.array(
+                eval_conv_gto("GTOval_sph_deriv%d" % deriv, (sds, al, (al / np.pi) ** 1.5), mold, crd[:3000]), copy=True))
     np.savez(out_npz, **res)
 
 
